@@ -22,7 +22,11 @@ Lay(s) == LET u == FirstOcc(s, 1, <<>>) n == Len(u) IN
     unknown_wire |-> RandomElement(BOOLEAN), unref |-> RandomElement({FALSE, FALSE, TRUE}), codec |-> RandomElement({"brotli", "zstd", "lzma"}),
     pset |-> RandomElement({0, 0, 1, 2}), version |-> RandomElement({"normal", "empty", "long"}),
     \* the size of the dictionary (a metadata value of many KiB stands for hundreds of descriptors) and how the server frames its bodies
-    bigmeta |-> RandomElement({0, 0, 0, 9000, 70000}), frag |-> RandomElement({0, 0, 7, 1000})]
+    bigmeta |-> RandomElement({0, 0, 0, 9000, 70000}), frag |-> RandomElement({0, 0, 7, 1000}),
+    \* a second descriptor for the first chunk (sharing the stored bytes or with its own copy): checksums need not be unique in the schema
+    dupdesc |-> RandomElement({"none", "none", "shared", "copy"}),
+    \* wording of the HTTP server's answers: Content-Length only / Content-Range a-b/N + extra headers / Content-Range a-b/* + chunked coding
+    dialect |-> RandomElement({0, 0, 1, 2})]
    : d \in PermSeqs(u), so \in PermSeqs(u), g \in [1..n -> {0, 5}], sl \in {0, 37}}
 Scen == UNION {{[sz |-> RandomElement(Profiles), src |-> s, prior |-> <<>>, inplace |-> FALSE,
                  seeds |-> RandomElement({<<>>, <<<<1>>>>, <<<<2, 0>>>>}), hl |-> RandomElement({4, 5, 8, 32, 63, 64}), layout |-> la] : la \in Lay(s)} : s \in Srcs17}
